@@ -43,7 +43,33 @@ func (a *Analysis) isPureModuleFunc(fn *ssa.Function) bool {
 	if v, ok := a.pureMemo[fn]; ok {
 		return v
 	}
-	a.pureMemo[fn] = false // recursion guard
+	r := a.pureFn(fn, false)
+	a.pureMemo[fn] = r
+	return r
+}
+
+// isPureValueFunc: like isPureModuleFunc, but the function may refuse its input with an explicit panic (an accessor with
+// a precondition): what it returns when it returns is still an expression over its arguments.
+func (a *Analysis) isPureValueFunc(fn *ssa.Function) bool {
+	if a.isPureModuleFunc(fn) {
+		return true
+	}
+	if a.pureVMemo == nil {
+		a.pureVMemo = map[*ssa.Function]bool{}
+	}
+	if v, ok := a.pureVMemo[fn]; ok {
+		return v
+	}
+	a.pureVMemo[fn] = false
+	r := a.pureFn(fn, true)
+	a.pureVMemo[fn] = r
+	return r
+}
+
+func (a *Analysis) pureFn(fn *ssa.Function, allowPanic bool) bool {
+	if !allowPanic {
+		a.pureMemo[fn] = false // recursion guard
+	}
 	if !a.P.InModule(fn) || len(fn.Blocks) == 0 || len(fn.FreeVars) > 0 {
 		return false
 	}
@@ -54,7 +80,11 @@ func (a *Analysis) isPureModuleFunc(fn *ssa.Function) bool {
 				if !addrIsLocal(x.Addr) {
 					return false
 				}
-			case *ssa.MapUpdate, *ssa.Send, *ssa.Go, *ssa.Defer, *ssa.Panic, *ssa.RunDefers:
+			case *ssa.Panic:
+				if !allowPanic {
+					return false
+				}
+			case *ssa.MapUpdate, *ssa.Send, *ssa.Go, *ssa.Defer, *ssa.RunDefers:
 				return false
 			case ssa.CallInstruction:
 				c := x.Common()
@@ -77,13 +107,19 @@ func (a *Analysis) isPureModuleFunc(fn *ssa.Function) bool {
 				if !a.P.InModule(sc) && sc.Signature.Recv() != nil && pureMethodNames[sc.Name()] && !returnsError(sc.Signature) {
 					continue // getter of a dependency type (time.Time.Add, url.URL.String)
 				}
-				if !a.isPureModuleFunc(sc) {
+				if allowPanic && sc.Signature.Recv() != nil && pureMethodNames[sc.Name()] && !returnsError(sc.Signature) {
+					continue // a getter of a module type, named as such by callAP (req.IDP.Metadata())
+				}
+				if allowPanic {
+					if !a.isPureValueFunc(sc) {
+						return false
+					}
+				} else if !a.isPureModuleFunc(sc) {
 					return false
 				}
 			}
 		}
 	}
-	a.pureMemo[fn] = true
 	return true
 }
 
@@ -610,6 +646,12 @@ func (fc *FuncCtx) callAP(x *ssa.Call) string {
 		return fc.uniq(bi.Name(), x)
 	}
 	if c.IsInvoke() {
+		// an interface method whose receiver holds one known module type: that type's accessor
+		if dm, dargs := fc.calleeArgs(x); dm != nil && fc.A.P.InModule(dm) {
+			if ap := fc.accessorAPArgs(x, dm, dargs); ap != "" {
+				return ap
+			}
+		}
 		if pureMethodNames[c.Method.Name()] && !returnsError(c.Signature()) {
 			return fc.AP(c.Value) + "." + c.Method.Name() + "(" + strings.Join(args, ",") + ")"
 		}
@@ -640,7 +682,11 @@ func (fc *FuncCtx) callAP(x *ssa.Call) string {
 // accessorAP: a side-effect-free module function with a single return is named by what it returns
 // (with its parameters bound to the arguments), so that introducing a trivial accessor is transparent.
 func (fc *FuncCtx) accessorAP(x *ssa.Call, sc *ssa.Function) string {
-	if !fc.A.isPureModuleFunc(sc) || fc.depth >= fc.A.MaxDepth {
+	return fc.accessorAPArgs(x, sc, x.Call.Args)
+}
+
+func (fc *FuncCtx) accessorAPArgs(x *ssa.Call, sc *ssa.Function, cargs []ssa.Value) string {
+	if !fc.A.isPureValueFunc(sc) || fc.depth >= fc.A.MaxDepth {
 		return ""
 	}
 	var ret *ssa.Return
@@ -658,7 +704,7 @@ func (fc *FuncCtx) accessorAP(x *ssa.Call, sc *ssa.Function) string {
 	if ret == nil || len(ret.Results) != 1 {
 		return ""
 	}
-	sub := fc.inlineCtx(sc, x.Call.Args, x)
+	sub := fc.inlineCtx(sc, cargs, x)
 	ap := sub.AP(ret.Results[0])
 	if sub.prefix == "" || strings.Contains(ap, sub.prefix) {
 		return "" // depends on callee-local values
@@ -903,7 +949,7 @@ func wholeStore(al *ssa.Alloc) ssa.Value {
 // result is named by that object, so that field facts established in the callee and uses in the caller
 // speak about the same access path.
 func (fc *FuncCtx) inlinedResultAP(c *ssa.Call, idx int) string {
-	sc := c.Call.StaticCallee()
+	sc, cargs := fc.calleeArgs(c)
 	if sc == nil || fc.A.Inline == nil || !fc.A.Inline(sc) || fc.depth >= fc.A.MaxDepth || len(sc.Blocks) == 0 {
 		return ""
 	}
@@ -912,7 +958,7 @@ func (fc *FuncCtx) inlinedResultAP(c *ssa.Call, idx int) string {
 	} else if _, ok := ct.Underlying().(*types.Pointer); !ok {
 		return ""
 	}
-	sub := fc.inlineCtx(sc, c.Call.Args, c)
+	sub := fc.inlineCtx(sc, cargs, c)
 	ap := ""
 	for _, ret := range sub.Returns() {
 		rc := retComponent(ret, idx)
@@ -939,7 +985,7 @@ func (fc *FuncCtx) inlinedResultAP(c *ssa.Call, idx int) string {
 // (nil error, if it has an error result) yields the same expression over the helper's parameters: the call's result is
 // named by that expression over the arguments (splitIV(ct, n) -> ct[:n], ct[n:]).
 func (fc *FuncCtx) pureResultAP(c *ssa.Call, idx int) string {
-	sc := c.Call.StaticCallee()
+	sc, cargs := fc.calleeArgs(c)
 	if sc == nil || fc.depth >= fc.A.MaxDepth || len(sc.Blocks) == 0 || !fc.A.isPureModuleFunc(sc) {
 		return ""
 	}
@@ -961,7 +1007,7 @@ func (fc *FuncCtx) pureResultAP(c *ssa.Call, idx int) string {
 	if hasErr && idx == ei {
 		return ""
 	}
-	sub := fc.inlineCtx(sc, c.Call.Args, c)
+	sub := fc.inlineCtx(sc, cargs, c)
 	ap := ""
 	for _, ret := range sub.Returns() {
 		rc := retComponent(ret, idx)
